@@ -34,7 +34,6 @@ def step (line : String) : String :=
         | c :: r => if hs = 0 then ([], c :: r) else (c.drop hs, r)
       let a := afterHandshake { buf := buf, wire := rechunk bufsz wire } .eof
       let a := if hs = 0 then copyHalf (rechunk bufsz c2s) .eof else { a with outs := a.outs.filter (· != Out.data []) }
-      -- the read-ahead is forwarded by drain_buffers, which does not count it
       let b := copyHalf (rechunk bufsz s2c) .eof
       let srv := if hs = 0 then a.outs else (if buf.isEmpty then a.outs.drop 1 else a.outs)
       s!"srv=[{showOuts srv}] cli=[{showOuts b.outs}] ok={if a.ok && b.ok then 1 else 0} cb={a.count} sb={b.count}"
